@@ -28,7 +28,10 @@ def run_variants(pid, jobs=8):
         s = qs.get()
         try:
             s.reset()
-            if not s.edit(m["file"], m["find"], m["repl"], m.get("count", 1)):
+            if "patch" in m:
+                if not s.apply_patch(m["patch"]):
+                    return dict(id=m["id"], status="skipped", why="patch does not apply to the current tree")
+            elif not s.edit(m["file"], m["find"], m["repl"], m.get("count", 1)):
                 return dict(id=m["id"], status="skipped", why="anchor text not found exactly once in the current tree")
             rc, out = s.check(pid)
             if "fact extraction failed" in out or "could not compile" in out:
